@@ -79,3 +79,50 @@ func vrtHarness_C01_reuse() {
 		}
 	}
 }
+
+// A query is abandoned (context cancelled after it was written); its reply
+// arrives late - only after the next caller has sent its own query.  The next
+// caller must still get the reply to its own question.
+func vrtHarness_C01_reuseCancel() {
+	var conns []*vrtConn
+	t := NewReuseConnTransport(ReuseConnOpts{DialContext: func(ctx context.Context) (NetConn, error) {
+		var c *vrtConn
+		vrtAtomic(func() {
+			c = &vrtConn{stream: true}
+			conns = append(conns, c)
+			first := len(conns) == 1
+			go func() { // this connection's server
+				vrtDaemon()
+				for k := 0; k < 2; k++ {
+					kk := k
+					vrtAwait(func() bool {
+						if first && kk == 0 { // the reply to the abandoned query is late: it waits for the next query on this connection
+							return len(c.frames) > 1
+						}
+						return len(c.frames) > kk
+					}, func() { c.serverSend(c.frames[kk]) })
+				}
+			}()
+		})
+		return c, nil
+	}})
+	ids := [2]uint16{vrtU16(), vrtU16()}
+	ctxX, cancelX := context.WithCancel(context.Background())
+	xDone := make(chan error, 1)
+	go func() {
+		_, err := t.ExchangeContext(ctxX, vrtWire(ids[0], 100))
+		xDone <- err
+	}()
+	vrtAwait(func() bool { return len(conns) > 0 && len(conns[0].frames) > 0 }, func() {})
+	cancelX()
+	errX := <-xDone
+	vrtAssert("the abandoned call ends with its context's error", errX != nil)
+	ctx, cancel := context.WithTimeout(context.Background(), 300*time.Millisecond)
+	defer cancel()
+	r, err := t.ExchangeContext(ctx, vrtWire(ids[1], 101))
+	vrtCover("second caller done", true)
+	if err == nil {
+		vrtCover("second caller got a reply", true)
+		vrtAssert("a successful call never returns the late reply of an abandoned query", vrtAnd(len(*r) == 14, vrtWireTag(*r) == 101, vrtWireID(*r) == ids[1]))
+	}
+}
